@@ -993,8 +993,8 @@ def _field_shards(tier):
     m = BOUNDS[tier]["m"]
     out = [("len(body) <= %d" % (m - 2), "%d <= va <= %d" % (a, a + 6)) for a in (0, 7)]
     out += [("len(body) == %d" % (m - 1), "va == %d" % a) for a in range(NVAL)]
-    out += [("len(body) == %d" % m, "va == %d" % a, third)
-            for a in (QVALS if tier == "quick" else range(NVAL)) for third in _THIRDS]
+    # the longest bodies with 6 of the 14 values (both tiers; the thorough tier is one character longer)
+    out += [("len(body) == %d" % m, "va == %d" % a, third) for a in QVALS for third in _THIRDS]
     return [o + ("vb == 12",) for o in out]
 
 
@@ -1008,8 +1008,8 @@ def _sys_shards(tier):
 
 def _flat_shards(tier):
     m = BOUNDS[tier]["f"]
-    out = [("len(body) <= %d" % (m - 1), "how == 0"), ("how >= 1",)]
-    out += [("len(body) == %d" % m, "how == 0", "va == %d" % a) for a in (QVALS if tier == "quick" else range(NVAL))]
+    out = [("len(body) <= %d" % (m - 1), "how == 0"), ("how >= 1", "va <= 6"), ("how >= 1", "va >= 7")]
+    out += [("len(body) == %d" % m, "how == 0", "va == %d" % a) for a in QVALS]
     return out
 
 
@@ -1043,7 +1043,7 @@ VECTORS = {
 
 BOUNDS_TEXT = ("format strings over the 14 characters { } ! : . [ ] ( ) a b 0 r s: every whole format string of length "
                "<= n (fmt_event), every single replacement field '<{' + body + '}>' with len(body) <= m "
-               "(field_event; the longest bodies in the quick tier with 6 of the 14 values) and '{' + body + '}.' "
+               "(field_event; the longest bodies with 6 of the 14 values) and '{' + body + '}.' "
                "with len(body) <= f after the real flattenEvent (flat_event); event keys a and b take any of 14 "
                "menu values (int, str, None, bytes, objects whose __str__ / __repr__ / __format__ raise or return "
                "non-text, raising and hostile-returning callables, dict, list, attribute holder with a raising "
